@@ -103,6 +103,7 @@ def fragEB (env : Env) : Expr → Bool
   | .the t k as => TheOk t k as.length && fragLB env as
   | .key n => plainThe n && isObjectless n && simpleIsKey n
   | .movie n => plainThe n && isObjectless n && simpleIsMovie n
+  | .oprop n o => plainThe n && !isObjectless n && headNotObj (prE o) && fragEB env o
   | _ => false
 def fragLB (env : Env) : List Expr → Bool
   | [] => true
@@ -154,7 +155,10 @@ theorem fragEB_spec (env : Env) : ∀ (e : Expr), fragEB env e = true → Spec.F
     simp only [fragEB, Bool.and_eq_true] at h
     simp only [Spec.Frag]
     exact ⟨plainThe_spec n h.1.1, h.1.2, simpleIsMovie_spec n h.2⟩
-  | .oprop _ _, h => by simp [fragEB] at h
+  | .oprop n o, h => by
+    simp only [fragEB, Bool.and_eq_true, Bool.not_eq_true'] at h
+    simp only [Spec.Frag]
+    exact ⟨plainThe_spec n h.1.1.1, h.1.1.2, h.1.2, fragEB_spec env o h.2⟩
   | .chunk _ _ _ _, h => by simp [fragEB] at h
 theorem fragLB_spec (env : Env) : ∀ (es : List Expr), fragLB env es = true → Spec.FragL env es
   | [], _ => by simp [Spec.FragL]
@@ -167,6 +171,8 @@ end
 /-- assignment target: a variable the environment classifies the way the tree does -/
 def lvB (env : Env) : Expr → Bool
   | .var k n => plainIdB n && (match env.resolveVar n with | .var k' n' => decide (k' = k) && decide (n' = n) | _ => false)
+  | .the t k as => fragEB env (.the t k as)
+  | .oprop n o => fragEB env (.oprop n o)
   | _ => false
 
 theorem lvB_spec (env : Env) (lv : Expr) (h : lvB env lv = true) : LvOk env lv := by
@@ -180,6 +186,12 @@ theorem lvB_spec (env : Env) (lv : Expr) (h : lvB env lv = true) : LvOk env lv :
       simp only [Bool.and_eq_true, decide_eq_true_eq] at h2
       rw [heq, h2.1, h2.2]
     · cases h2
+  | the t k as =>
+    simp only [lvB] at h
+    exact Or.inr ⟨rfl, fragEB_spec env _ h⟩
+  | oprop n o =>
+    simp only [lvB] at h
+    exact Or.inr ⟨rfl, fragEB_spec env _ h⟩
   | _ => simp [lvB] at h
 
 /-- loop variable of `repeat with`: a variable the environment classifies the way the tree does -/
